@@ -131,10 +131,12 @@ def _run(ctx, pq):
         cmds.append(("analyse_paths", [L.enc(p) for p in paths], [] if root is None else [L.enc(root)]))
         meta.append(({"corr": "analyse_paths", "shape": shape, "paths": paths, "root": root}, impl))
     outs_a = pq.batch(cmds)
-    if getattr(ctx, "gen_paths", False):       # the regenerated text itself, evaluated by the kernel, against the real functions
+    units = getattr(ctx, "gen_paths", None) or set()
+    if units & {"analyse", "strip"}:       # the regenerated text itself, evaluated by the kernel, against the real functions
         pick = [m[0] for m in meta if all(L.coq_ascii_ok(p) for p in m[0]["paths"]) and m[0]["paths"]]
         pick = rng.sample(pick, min(len(pick), 40))
-        L.gen_paths_samples(ctx, [(c["paths"], c["root"]) for c in pick] + [([], None)], [p for c in pick[:12] for p in c["paths"][:2]])
+        L.gen_paths_samples(ctx, ([(c["paths"], c["root"]) for c in pick] + [([], None)]) if "analyse" in units else [],
+                            [p for c in pick[:12] for p in c["paths"][:2]] if "strip" in units else [])
     samples = []
     L.sample_pq(samples, cmds, outs_a, rng, 10)
     for cmd in [("merge", [b"/d/a.parquet", b"/d/b.parquet", b"/d/c.parquet"],
@@ -552,21 +554,26 @@ def _vias(case, root, pq, ctx, compare, plist, paths, order, uniq_order, base, g
                 rgs.append([rg.num_rows, [] if fp is None else [L.enc(fp if isinstance(fp, str) else fp.decode())], gid])
                 gid += 1
             summaries.append([pfi.file_scheme in ("simple", "empty"), sid, len(pfi.fmd.schema), rgs])
-        for use_fs in (False, True):
+        for use_fs in (False, True, "instances"):
             try:
-                bp, fmd = util.metadata_from_many(list(plist), verify_schema=False, root=given_root or False, fs=fs if use_fs else None)
+                if use_fs == "instances":     # ParquetFile INSTANCES as input: always the legacy path, whatever the filesystem and the number of files
+                    bp, fmd = util.metadata_from_many([ParquetFile(p) for p in plist], verify_schema=False, root=given_root or False, fs=fs)
+                else:
+                    bp, fmd = util.metadata_from_many(list(plist), verify_schema=False, root=given_root or False, fs=fs if use_fs else None)
                 impl = ["ok", bp, [[rg.num_rows, rg.columns[0].file_path] for rg in fmd.row_groups], fmd.num_rows]
             except ValueError:
                 impl = "ValueError"
             except Exception as e:      # noqa
                 impl = "Error"
-            mo = pq.call("merge", [L.enc(p) for p in plist], summaries, False, use_fs, [L.enc(given_root)] if given_root else [])
+            mo = pq.call("merge", [L.enc(p) for p in plist], summaries, False, use_fs is True, [L.enc(given_root)] if given_root else [])
             if isinstance(mo, (bytes, bytearray)):
                 model = bytes(mo).decode()
             else:
                 model = ["ok", bytes(mo[1]).decode(), [[r[0], bytes(r[1][0]).decode() if r[1] else None] for r in mo[3]], mo[4]]
             if ctx is not None:
-                ctx.correspondence("metadata_from_many model ~ util.metadata_from_many (%s)" % ("fsspec fast path when >= 3 single files" if use_fs else "legacy path"),
+                ctx.correspondence("metadata_from_many model ~ util.metadata_from_many (%s)" % (
+                                   "ParquetFile instances as input: legacy path" if use_fs == "instances" else
+                                   "fsspec fast path when >= 3 single files" if use_fs else "legacy path"),
                                    dict(_replayable(case), use_fs=use_fs), model, impl)
     if shape != "subdatasets":
         # ---- via directory and glob: files in the listing order (sorted paths)
@@ -631,6 +638,34 @@ def _mutate_schema(fmd, attr):
         raise ValueError(attr)
 
 
+def flatten_schema(schema):
+    """list of SchemaElement ThriftObjects -> the model's elements: ((path-of-field-ids atom) ...), None / dynamic keys left out"""
+    def walk(d, pre, out):
+        for k, v in d.items():
+            if not isinstance(k, int) or v is None:
+                continue
+            if isinstance(v, dict):
+                if any(isinstance(kk, int) and vv is not None for kk, vv in v.items()):
+                    walk(v, pre + [k], out)
+                else:
+                    out.append([pre + [k], []])
+            elif isinstance(v, (list, tuple)):
+                out.append([pre + [k, 0], len(v)])
+                for i, x in enumerate(v):
+                    if isinstance(x, dict):
+                        walk(x, pre + [k, i + 1], out)
+                    else:
+                        out.append([pre + [k, i + 1], x.encode() if isinstance(x, str) else (bytes(x) if isinstance(x, (bytes, bytearray)) else int(x))])
+            elif isinstance(v, str):
+                out.append([pre + [k], v.encode()])
+            elif isinstance(v, (bytes, bytearray)):
+                out.append([pre + [k], bytes(v)])
+            else:
+                out.append([pre + [k], int(v)])
+        return out
+    return [walk(getattr(e, "contents", e), [], []) for e in schema]
+
+
 def check_verify(case, root, pq, ctx=None, verbose=False):
     """files whose schemas differ (in exactly one attribute of one element) are rejected when verification is requested"""
     import numpy as np
@@ -654,6 +689,13 @@ def check_verify(case, root, pq, ctx=None, verbose=False):
     nf = bytes(fmd.to_bytes())
     open(f1, "wb").write(b[:loc] + nf + len(nf).to_bytes(4, "little") + b"PAR1")
     problems = []
+    # the comparison itself: Dataset/SchemaEq.schema_eqb (proved = element-wise, attribute-wise equality) on the flattened footers ~ the
+    # real `!=` on the lists of SchemaElement objects, both ways round
+    if ctx is not None and pq is not None:
+        pa, pb, pc = ParquetFile(f0), ParquetFile(f1), ParquetFile(f2)
+        for na, a, nb, b in (("f0", pa, "f1", pb), ("f1", pb, "f0", pa), ("f0", pa, "f2", pc), ("f1", pb, "f1", ParquetFile(f1))):
+            ctx.correspondence("schema_eqb (Dataset/SchemaEq.v) ~ not (pf._schema != other._schema)", {"verify_case": case, "pair": [na, nb]},
+                               pq.call("schema_eqb", flatten_schema(a._schema), flatten_schema(b._schema)) == 1, not (a._schema != b._schema))
     lists = {"second": [f0, f1], "first": [f1, f0], "third-of-3": [f0, f2, f1]}
     for pos, lst in lists.items():
         for via in ("list", "merge"):
